@@ -166,14 +166,24 @@ pub fn check_list(ctx: &mut Ctx, list: &[REntry], codec: u8, with_async: bool, r
             Ok(Err(e)) => ctx.violation("Directory::from_async_reader", "foreign-rejected", "independent encoder's output refused", &e.to_string(), mat(list, codec)),
             Err(p) => ctx.panic("Directory::from_async_reader", &p, mat(list, codec)),
         }
-        // two directories stored back to back in ONE stream, parsed one after the other without seeking in between (sync and
-        // async): the first parse must leave the stream where the second directory starts
+        // two directories stored back to back in ONE stream, parsed one after the other (sync and async): the first parse must not
+        // read beyond its `length` bytes (whether it consumes all of them is not demanded -- the async gzip decoder may leave
+        // trailer bytes unread --, so the stream is positioned onto the second directory before the second parse)
         {
             let mut both = foreign.clone();
             both.extend_from_slice(&foreign);
             both.extend_from_slice(&[0xAB; 9000]);
             let mut s2 = crate::io::Inst::new(both.clone());
-            let r = guard(|| -> std::io::Result<(Directory, Directory)> { Ok((Directory::from_reader(&mut s2, flen, comp)?, Directory::from_reader(&mut s2, flen, comp)?)) });
+            let mut over_read = false;
+            let r = guard(|| -> std::io::Result<(Directory, Directory)> {
+                let a = Directory::from_reader(&mut s2, flen, comp)?;
+                over_read = s2.c.pos > flen;
+                std::io::Seek::seek(&mut s2, std::io::SeekFrom::Start(flen))?;
+                Ok((a, Directory::from_reader(&mut s2, flen, comp)?))
+            });
+            if over_read {
+                ctx.violation("Directory::from_reader", "over-read", "the parser reads beyond the length it was given", &format!("stream position {} after parsing a directory of {flen} bytes", s2.c.pos), mat(list, codec));
+            }
             match r {
                 Ok(Ok((a, b))) if gen::from_lib_entries(&a) == list && gen::from_lib_entries(&b) == list => ctx.count("back_to_back_parses_ok"),
                 Ok(Ok(_)) => ctx.violation("Directory::from_reader", "foreign-decode", "two directories stored back to back are not both decoded to their entries", "second parse differs", mat(list, codec)),
@@ -182,13 +192,21 @@ pub fn check_list(ctx: &mut Ctx, list: &[REntry], codec: u8, with_async: bool, r
             }
             let mut a2 = AInst::new(both);
             a2.pend = Pend::Alternate;
+            let mut over_read_at = None;
             let r = guard(|| {
                 block_on(async {
                     let a = Directory::from_async_reader(&mut a2, flen, comp).await?;
+                    if a2.c.pos > flen {
+                        over_read_at = Some(a2.c.pos);
+                    }
+                    futures::AsyncSeekExt::seek(&mut a2, futures::io::SeekFrom::Start(flen)).await?;
                     let b = Directory::from_async_reader(&mut a2, flen, comp).await?;
                     Ok::<_, std::io::Error>((a, b))
                 })
             });
+            if let Some(at) = over_read_at {
+                ctx.violation("Directory::from_async_reader", "over-read", "the parser reads beyond the length it was given (async)", &format!("stream position {at} after parsing a directory of {flen} bytes"), mat(list, codec));
+            }
             match r {
                 Ok(Ok((a, b))) if gen::from_lib_entries(&a) == list && gen::from_lib_entries(&b) == list => ctx.count("back_to_back_parses_ok"),
                 Ok(Ok(_)) => ctx.violation("Directory::from_async_reader", "foreign-decode", "two directories stored back to back are not both decoded to their entries (async)", "second parse differs", mat(list, codec)),
